@@ -10,11 +10,16 @@
                      message list between peers whose prefix sizes agree (C01_transfer);
       identifiers  : frames emitted under an address are accepted by the mirrored address (C09_mirror);
       user side    : recv() hands over the oldest payload and removes it (C01_recv_fifo).
-    The joint two-peer theorem over EVERY interleaving of the two process() loops (DESIGN.md 4,
-    C01_safety / C01_progress) is not proved; the interleavings are covered by the two-peer
-    correspondence campaign (harness/props/C01.py). *)
+    Over EVERY interleaving of the two process() loops, user calls and clock ticks
+    (C01_every_interleaving on joint micro-steps, C01_every_schedule on user-level calls,
+    C01_process_is_joint_steps relating the two): as long as neither side has reported an error, what
+    one side delivered is a prefix of what the other accepted - same bytes, same order, none twice, none
+    invented - in both directions at once, and at rest it is everything.  That no error is reported
+    when both sides are processed in time is proved for the lock-step schedule (C01_lockstep) and
+    explored for the others by the two-peer correspondence campaign (harness/props/C01.py). *)
 From IsoTp Require Import Base.Prelude Model.Layer Model.Address Spec.ConfigSpec Spec.Stream Spec.Segment
-  Proofs.RxP Proofs.SegP Proofs.FaultP Proofs.TransferP Proofs.TxP Proofs.CoopP Proofs.FcPosP.
+  Proofs.RxP Proofs.SegP Proofs.FaultP Proofs.TransferP Proofs.TxP Proofs.CoopP Proofs.FcPosP
+  Model.Micro Model.Joint Proofs.Inv Proofs.SendTraceP Proofs.WireP Proofs.JointP Proofs.JointProcP.
 
 Theorem C01_segmentation_wellformed : forall c, params_ok (c_p c) -> forall t payload,
   1 <= zlen payload < 2 ^ 32 ->
@@ -97,9 +102,61 @@ Theorem C01_lockstep : forall ca cb, params_ok (c_p ca) -> params_ok (c_p cb) ->
       (forall i, 2 <= i <= ncf -> waits_before fc i = fc_due cb (i - 1) ncf).
 Proof. exact lockstep_multi. Qed.
 
+
+(** Two layers [ca], [cb] with accepted parameters and mirrored addresses ([linked] both ways), joined by
+    a reliable in-order link ([Model/Joint.v]: what one side hands to txfn is, in that order, what the
+    other side's rxfn returns).  For EVERY list of joint steps from the initial state - micro-steps of
+    either side in any interleaving (timeout checks, limiter updates, transmit passes, send() with any
+    non-empty payload the peer's max_frame_size admits, recv(), clock ticks) and deliveries of the oldest
+    frame in flight to either side, i.e. any process() granularity and any batching - either an error
+    event has been reported on one side, or: the payloads recv() returned on B followed by those waiting
+    in B's reception queue are a prefix of the payloads send() accepted on A, in the same order, and
+    the same from B to A; and when the system is at rest (nothing in flight, transmitters idle with
+    empty queues, receivers idle) they are exactly all of them. *)
+Theorem C01_every_interleaving : forall ca cb, params_ok (c_p ca) -> params_ok (c_p cb) ->
+  linked ca cb -> linked cb ca ->
+  forall ta tb ops, Forall (jop_ok ca cb) ops ->
+  let n := fst (jrun ca cb (init_net ca cb ta tb) ops) in
+  let tr := snd (jrun ca cb (init_net ca cb ta tb) ops) in
+  jerr tr = true \/
+  ((exists later, sent_of SA tr = (recv_of SB tr ++ rx_queue (nB n)) ++ later) /\
+   (exists later, sent_of SB tr = (recv_of SA tr ++ rx_queue (nA n)) ++ later) /\
+   (at_rest n -> sent_of SA tr = recv_of SB tr ++ rx_queue (nB n) /\
+                 sent_of SB tr = recv_of SA tr ++ rx_queue (nA n))).
+Proof. exact joint_transfer. Qed.
+
+(** One process() call of one side - any fuel, any do_rx / do_tx flags - with the frames in flight
+    toward it as its inbox IS a list of joint steps of that side: same resulting layer state, same
+    frames left in flight, same events, its frames appended in order to those in flight toward the peer. *)
+Theorem C01_process_is_joint_steps : forall ca cb sd fuel do_rx do_tx s inb outb so evs st,
+  let r := process_loop fuel (cfg_of ca cb sd) do_rx do_tx {| w_l := s; w_inbox := inb |} evs st in
+  exists ops enew,
+    Forall (proc_jop sd) ops /\
+    snd (fst (fst r)) = evs ++ enew /\
+    jrun ca cb (mk sd s inb outb so) ops =
+      (mk sd (w_l (fst (fst (fst r)))) (w_inbox (fst (fst (fst r)))) (outb ++ out_frames enew) so, map (JE sd) enew).
+Proof. exact process_joint. Qed.
+
+(** Hence the same for EVERY schedule of user-level calls: process() on either side with any flags,
+    send(), recv(), clock ticks, in any order and number. *)
+Theorem C01_every_schedule : forall ca cb, params_ok (c_p ca) -> params_ok (c_p cb) ->
+  linked ca cb -> linked cb ca ->
+  forall ta tb cls, Forall (call_ok ca cb) cls ->
+  let n := fst (crun ca cb (init_net ca cb ta tb) cls) in
+  let tr := snd (crun ca cb (init_net ca cb ta tb) cls) in
+  jerr tr = true \/
+  ((exists later, sent_of SA tr = (recv_of SB tr ++ rx_queue (nB n)) ++ later) /\
+   (exists later, sent_of SB tr = (recv_of SA tr ++ rx_queue (nA n)) ++ later) /\
+   (at_rest n -> sent_of SA tr = recv_of SB tr ++ rx_queue (nB n) /\
+                 sent_of SB tr = recv_of SA tr ++ rx_queue (nA n))).
+Proof. exact calls_transfer. Qed.
+
 Print Assumptions C01_segmentation_wellformed.
 Print Assumptions C01_messages.
 Print Assumptions C01_transfer.
 Print Assumptions C01_recv_fifo.
 Print Assumptions C01_end_to_end_cooperative.
 Print Assumptions C01_lockstep.
+Print Assumptions C01_every_interleaving.
+Print Assumptions C01_process_is_joint_steps.
+Print Assumptions C01_every_schedule.
